@@ -80,6 +80,10 @@ impl<'a> Iterator for Params<'a> {
                     ));
                 }
                 self.input = rest;
+            } else if !rest.is_empty() {
+                // new-params-bound flag is clear: the types bound by an earlier execution are
+                // reused, but the flag byte itself still has to be consumed
+                self.input = &rest[1..];
             }
         }
 
